@@ -560,6 +560,26 @@ pub fn gen_c03(cx: &mut Ctx) {
         }
         cx.emit("C03", "not", &[Arg::F(Val::E(a.clone()))], false);
     }
+    // operands that share a node with each other (one handle, cloned into both sides), plain and negated
+    {
+        let (a, b, c, d) = (lit("a"), lit("b"), lit("c"), lit("d"));
+        let shared: Vec<E> = vec![
+            a.clone(), not(a.clone()), and(vec![a.clone(), b.clone()]), or(vec![a.clone(), b.clone()]),
+            not(and(vec![a.clone(), b.clone()])), and(vec![a.clone(), or(vec![b.clone(), c.clone()])]), cst(true),
+        ];
+        let sides: Vec<E> = vec![c.clone(), d.clone(), not(c.clone()), and(vec![c.clone(), d.clone()]), or(vec![b.clone(), d.clone()])];
+        for x in &shared {
+            for y in sides.iter().take(3) {
+                for z in sides.iter().skip(1) {
+                    for mode in ["ooN", "ooL", "ooR", "ooB", "aaN", "aaL", "aaR", "aaB", "oaL", "oaR", "aoL", "aoR", "oaN", "aoB"] {
+                        for op in ["and", "or", "xor", "imply", "iff"] {
+                            cx.emit("C03", &format!("{}.shared", op), &[Arg::F(Val::E(x.clone())), Arg::F(Val::E(y.clone())), Arg::F(Val::E(z.clone())), Arg::A(mode.to_string())], true);
+                        }
+                    }
+                }
+            }
+        }
+    }
     // random larger pairs
     let pool = pool_names();
     for _ in 0..cx.scale * if cx.thorough { 100000 } else { 3000 } {
@@ -773,6 +793,47 @@ pub fn clause_exprs(rng: &mut Rng) -> Vec<E> {
             clauses.push(if dual { or(clause) } else { and(clause) });
         }
         out.push(if dual { and(clauses) } else { or(clauses) });
+    }
+    out
+}
+
+/// pairs of clauses over {a, b, c} in every inclusion / prefix / permutation relation, as a DNF and as
+/// a CNF (absorption-like simplifications must respect which clause contains which)
+pub fn clause_pairs() -> Vec<E> {
+    let vars = [lit("a"), lit("b"), lit("c")];
+    let mut seqs: Vec<Vec<E>> = vec![];
+    for i in 0..3 {
+        seqs.push(vec![vars[i].clone()]);
+        for j in 0..3 {
+            if j != i {
+                seqs.push(vec![vars[i].clone(), vars[j].clone()]);
+                for k in 0..3 {
+                    if k != i && k != j {
+                        seqs.push(vec![vars[i].clone(), vars[j].clone(), vars[k].clone()]);
+                    }
+                }
+            }
+        }
+    }
+    // a negated and a compound member, too
+    seqs.push(vec![vars[0].clone(), not(vars[1].clone())]);
+    seqs.push(vec![vars[0].clone(), not(vars[1].clone()), vars[2].clone()]);
+    seqs.push(vec![or(vec![vars[0].clone(), vars[1].clone()]), vars[2].clone()]);
+    seqs.push(vec![or(vec![vars[0].clone(), vars[1].clone()]), vars[2].clone(), not(vars[0].clone())]);
+    let mut out = vec![];
+    for c1 in &seqs {
+        for c2 in &seqs {
+            out.push(or(vec![and(c1.clone()), and(c2.clone())]));
+            out.push(and(vec![or(c1.clone()), or(c2.clone())]));
+        }
+    }
+    // three clauses: the accumulated product meets the next operand
+    for c1 in seqs.iter().step_by(3) {
+        for c2 in seqs.iter().step_by(4) {
+            out.push(or(vec![lit("d"), and(c1.clone()), and(c2.clone())]));
+            out.push(or(vec![and(c1.clone()), lit("d"), and(c2.clone())]));
+            out.push(and(vec![or(c1.clone()), or(c2.clone()), lit("d")]));
+        }
     }
     out
 }
@@ -1236,6 +1297,9 @@ pub fn gen_c11(cx: &mut Ctx) {
         emit_nf(cx, &e);
     }
     for e in shared_exprs().into_iter().chain(shaped_exprs()) {
+        emit_nf(cx, &e);
+    }
+    for e in clause_pairs().into_iter().chain(clause_exprs(&mut cx.rng).into_iter().step_by(3)) {
         emit_nf(cx, &e);
     }
     let ns = names(&["a", "b", "c", "x_10"]);
